@@ -54,6 +54,14 @@ def _metric(spec, thr, k, d=None):
         ki = int(k) if abs(k) >= 1 else 3
         f = lambda s, threshold, k: k * s.cm(threshold).matrix  # noqa: E731
         return f, dict(threshold=thr, k=ki), lambda o: np.asarray(ki * o.cm(thr).matrix)
+    if name == "call-matrix-T":
+        # the same counts handed back as a transposed view / in Fortran order: index order != memory order
+        ki = int(k) if abs(k) >= 1 else 3
+        if ki % 2:
+            f = lambda s, threshold, k: (k * s.cm(threshold).matrix).T  # noqa: E731
+        else:
+            f = lambda s, threshold, k: np.asfortranarray((k * s.cm(threshold).matrix).T)  # noqa: E731
+        return f, dict(threshold=thr, k=ki), lambda o: np.ascontiguousarray((ki * o.cm(thr).matrix).T)
     if name == "call-ppv":
         # undefined (NaN) on samples without a predicted positive at the threshold
         f = lambda s, threshold: s.cm(threshold).ppv()  # noqa: E731
@@ -92,7 +100,7 @@ def _metric(spec, thr, k, d=None):
 
 SCORE_METRICS = ["tpr", "fnr", "fpr", "tonr", "threshold_at_fnr", "threshold_at_tpr", "threshold_at_tnr",
                  "threshold_at_topr", "threshold_at_tar", "auc", "eer", "call-scalar",
-                 "call-vector", "call-vector", "call-scalar", "call-matrix", "call-mean", "call-ppv", "call-ppv",
+                 "call-vector", "call-vector", "call-scalar", "call-matrix", "call-matrix-T", "call-matrix-T", "call-mean", "call-ppv", "call-ppv",
                  "call-buffer", "call-buffer", "call-named-like-method", "call-named-like-rate", "call-int-at-origin",
                  "call-int-at-origin"]
 GROUP_METRICS = ["group_fpr", "group_tnr", "group_fnr", "fnr", "call-vector", "call-mean"]
